@@ -117,47 +117,84 @@ Qed.
 Definition quiet (e : list ev) : Prop := forall c, nposts c e = O /\ acc c e = false /\ rel c e = false.
 
 Inductive summary (s s' : st) (e : list ev) : Prop :=
-| SQuiet : quiet e -> seen s' = seen s -> tagmap s' = tagmap s -> summary s s' e
-| SReply c : In c (tagmap s) -> tagmap s' = remove_z c (tagmap s) -> seen s' = seen s ->
+| SQuiet : quiet e -> seen s' = seen s -> tagmap s' = tagmap s -> waiting s' = waiting s -> summary s s' e
+| SReply c : In c (tagmap s) -> tagmap s' = remove_z c (tagmap s) -> seen s' = seen s -> waiting s' = waiting s ->
     (forall c', nposts c' e = if c =? c' then 1%nat else O) -> (forall c', acc c' e = false /\ rel c' e = false) -> summary s s' e
-| SRelease c : In c (tagmap s) -> tagmap s' = remove_z c (tagmap s) -> seen s' = seen s ->
+| SRelease c : In c (tagmap s) -> tagmap s' = remove_z c (tagmap s) -> seen s' = seen s -> waiting s' = waiting s ->
     (forall c', nposts c' e = O /\ acc c' e = false /\ rel c' e = (c =? c')) -> summary s s' e
-| SShutdown : tagmap s' = [] -> seen s' = seen s ->
+| SShutdown : tagmap s' = [] -> seen s' = seen s -> waiting s' = waiting s ->
     (forall c', nposts c' e = if mem_z c' (tagmap s) then 1%nat else O) -> (forall c', acc c' e = false /\ rel c' e = false) ->
     summary s s' e
-| SAccept c : mem_z c (seen s) = false -> tagmap s' = tagmap s ++ [c] -> seen s' = c :: seen s -> e = [Accepted c] ->
-    summary s s' e
-| SReject c : mem_z c (seen s) = false -> tagmap s' = tagmap s -> seen s' = c :: seen s -> e = [Post c KNotOpen] ->
-    summary s s' e.
+| SAccept c : mem_z c (seen s) = false -> tagmap s' = tagmap s ++ [c] -> seen s' = c :: seen s -> waiting s' = waiting s ->
+    e = [Accepted c] -> summary s s' e
+| SReject c : mem_z c (seen s) = false -> tagmap s' = tagmap s -> seen s' = c :: seen s -> waiting s' = waiting s ->
+    e = [Post c KNotOpen] -> summary s s' e
+| SBlock c : mem_z c (seen s) = false -> tagmap s' = tagmap s -> seen s' = c :: seen s -> waiting s' = waiting s ++ [c] ->
+    e = [] -> summary s s' e
+| SResumeAccept c : In c (waiting s) -> tagmap s' = tagmap s ++ [c] -> seen s' = seen s ->
+    waiting s' = remove_z c (waiting s) -> e = [Accepted c] -> summary s s' e
+| SResumeReject c : In c (waiting s) -> tagmap s' = tagmap s -> seen s' = seen s ->
+    waiting s' = remove_z c (waiting s) -> e = [Post c KNotOpen] -> summary s s' e.
 
 Lemma quiet_nil : quiet [].
 Proof. intros c. repeat split. Qed.
 
+Lemma ar_fail_waiting s : waiting (ar_fail s) = waiting s.
+Proof. unfold ar_fail. destruct (par s); reflexivity. Qed.
+
+Lemma shutdown_waiting f s : waiting (fst (shutdown f s)) = waiting s.
+Proof. unfold shutdown. destruct (cst s); cbn; try reflexivity. apply ar_fail_waiting. Qed.
+
 Lemma shutdown_summary f s s1 e1 :
-  Inv s -> shutdown f s = (s1, e1) -> forall s', tagmap s' = tagmap s1 -> seen s' = seen s1 -> summary s s' e1.
+  Inv s -> shutdown f s = (s1, e1) -> forall s', tagmap s' = tagmap s1 -> seen s' = seen s1 -> waiting s' = waiting s1 ->
+  summary s s' e1.
 Proof.
-  intros I Sh s' T Sn. destruct (cst s) eqn:C.
+  intros I Sh s' T Sn W. pose proof (shutdown_waiting f s) as Ws. rewrite Sh in Ws. cbn in Ws. destruct (cst s) eqn:C.
   1,2: assert (C' : cst s <> Closed) by congruence;
     destruct (shutdown_spec f s s1 e1 C' (m_nodup _ I) Sh) as (P1 & P2 & P3 & P4 & P5 & P6 & P7 & P8 & P9 & P10 & P11 & P12 & P13);
     apply SShutdown; try congruence; assumption.
   rewrite (shutdown_closed f s C) in Sh. inversion Sh; subst. destruct (ar_fail_same s) as (A1 & A2 & A3 & A4 & _).
-  apply SQuiet; [apply quiet_nil | congruence | congruence].
+  apply SQuiet; [apply quiet_nil | congruence | congruence | congruence].
+Qed.
+
+Lemma shutdown_step_waiting s l f s' e :
+  shutdown_label s l = Some f -> step s l = Some (s', e) -> waiting s' = waiting s.
+Proof.
+  intros L H. pose proof (shutdown_waiting f s) as W.
+  destruct l; cbn in L; try discriminate.
+  - destruct ok; [discriminate|]. destruct (opn s) as [[| | |]|] eqn:O; try discriminate. inversion L; subst.
+    cbn in H. rewrite O in H. destruct (shutdown true s) as [s1 e1]. inversion H; subst. cbn in *. assumption.
+  - destruct (sndl s) eqn:Sd; try discriminate. destruct (io_ok r) eqn:R; [discriminate|]. inversion L; subst.
+    cbn in H. rewrite Sd, R in H. destruct (shutdown true s) as [s1 e1]. inversion H; subst. assumption.
+  - destruct (io_ok r) eqn:R; [destruct (rcv s); discriminate|].
+    destruct (rcv s) eqn:Rc; try discriminate; inversion L; subst; cbn in H; rewrite Rc, R in H;
+    destruct (shutdown true s) as [s1 e1]; inversion H; subst; assumption.
+  - destruct (ping_dl s) as [d|] eqn:D; [|discriminate]. destruct ((d =? now s) && par s) eqn:B; [|discriminate].
+    inversion L; subst. cbn in H. rewrite D, B in H. destruct (shutdown true s) as [s1 e1]. inversion H; subst. assumption.
+  - inversion L; subst. cbn in H. destruct (shutdown false s) as [s1 e1]. inversion H; subst. assumption.
 Qed.
 
 Lemma step_summary s l s' e : Inv s -> step s l = Some (s', e) -> summary s s' e.
 Proof.
   intros I H.
   destruct (shutdown_label s l) as [f|] eqn:L.
-  - destruct (shutdown_step s l f L) as (s2 & e2 & St & He & E1 & E2 & E3 & E4 & E5 & E6 & E7).
-    rewrite H in St. inversion St; subst s2 e2. destruct (shutdown f s) as [s1 e1] eqn:Sh. cbn in *. subst e.
-    eapply shutdown_summary; eassumption.
+  - pose proof (shutdown_step_waiting s l f s' e L H) as W.
+    destruct (shutdown_step s l f L) as (s2 & e2 & St & He & E1 & E2 & E3 & E4 & E5 & E6 & E7).
+    rewrite H in St. inversion St; subst s2 e2. pose proof (shutdown_waiting f s) as Ws.
+    destruct (shutdown f s) as [s1 e1] eqn:Sh. cbn in *. subst e.
+    eapply shutdown_summary; try eassumption. congruence.
   - pose proof (m_idle _ I) as I5. pose proof (m_nodup _ I) as I1. clear I.
-    destruct s as [nw ch op tm sn ex q sd rc pd pa dl pls lw lpg]; cbn in *.
+    destruct s as [nw ch op tm sn ex q sd rc pd pa dl pls lw lpg wt]; cbn in *.
     destruct l; cbn in H, L; unfold send_ping, tick_ok in H; cbn in H; brk; try discriminate;
-    try (apply SQuiet; [intros c0; cbn; auto | reflexivity | cbn; try reflexivity; destruct I5 as (_ & T & _); auto; congruence]; fail).
+    try (apply SQuiet; [intros c0; cbn; auto | reflexivity | cbn; try reflexivity; destruct I5 as (_ & T & _); auto; congruence | reflexivity]; fail).
+    + (* MReq blocks on the open result *) eapply SBlock; cbn; try reflexivity; assumption.
     + (* MReq refused while idle *) eapply SReject; cbn; try reflexivity; assumption.
     + (* MReq accepted *) eapply SAccept; cbn; try reflexivity; assumption.
     + (* MReq refused when closed *) eapply SReject; cbn; try reflexivity; assumption.
+    + (* a blocked caller resumes on an open transport *)
+      eapply SResumeAccept with (c := c); cbn; try reflexivity. apply mem_z_true. assumption.
+    + (* a blocked caller resumes on a closed transport *)
+      eapply SResumeReject with (c := c); cbn; try reflexivity. apply mem_z_true. assumption.
     + (* MTake drops an expired frame *)
       eapply SRelease with (c := c); cbn; try reflexivity.
       * apply mem_z_true. assumption.
@@ -172,7 +209,8 @@ Qed.
 Record G (s : st) (evs : list ev) : Prop := {
   g_fresh : forall c, mem_z c (seen s) = false -> nposts c evs = O /\ acc c evs = false /\ rel c evs = false;
   g_map : forall c, In c (tagmap s) -> nposts c evs = O /\ acc c evs = true /\ rel c evs = false;
-  g_done : forall c, mem_z c (seen s) = true -> ~ In c (tagmap s) ->
+  g_wait : forall c, In c (waiting s) -> nposts c evs = O /\ acc c evs = false /\ rel c evs = false;
+  g_done : forall c, mem_z c (seen s) = true -> ~ In c (tagmap s) -> ~ In c (waiting s) ->
      (acc c evs = true /\ ((nposts c evs = 1%nat /\ rel c evs = false) \/ (nposts c evs = O /\ rel c evs = true))) \/
      (acc c evs = false /\ nposts c evs = 1%nat /\ rel c evs = false);
 }.
@@ -185,63 +223,107 @@ Proof. reflexivity. Qed.
 
 Lemma step_G s l s' e evs : Inv s -> G s evs -> step s l = Some (s', e) -> G s' (evs ++ e).
 Proof.
-  intros I [Gf Gm Gd] H. pose proof (m_map_seen _ I) as Ms. pose proof (m_nodup _ I) as Nd.
+  intros I [Gf Gm Gw Gd] H. pose proof (m_map_seen _ I) as Ms. pose proof (m_nodup _ I) as Nd.
+  pose proof (m_wait_seen _ I) as Ws. pose proof (m_wait_map _ I) as Wm. pose proof (m_wait_nodup _ I) as Wn.
   apply step_summary in H; [|assumption].
-  destruct H as [Q Hs Ht | c Hin Ht Hs Hn Ha | c Hin Ht Hs Hr | Ht Hs Hn Ha | c Hc Ht Hs He | c Hc Ht Hs He].
-  - constructor; intros c0; rewrite ?Hs, ?Ht; intros; rewrite nposts_app, acc_app, rel_app;
+  destruct H as [Q Hs Ht Hw | c Hin Ht Hs Hw Hn Ha | c Hin Ht Hs Hw Hr | Ht Hs Hw Hn Ha | c Hc Ht Hs Hw He | c Hc Ht Hs Hw He
+                | c Hc Ht Hs Hw He | c Hin Ht Hs Hw He | c Hin Ht Hs Hw He].
+  - constructor; intros c0; rewrite ?Hs, ?Ht, ?Hw; intros; rewrite nposts_app, acc_app, rel_app;
     destruct (Q c0) as (Q1 & Q2 & Q3); rewrite Q1, Q2, Q3, ?Nat.add_0_r, ?orb_false_r; auto.
   - (* reply *)
     destruct (Gm _ Hin) as (G1 & G2 & G3). pose proof (Ms _ Hin) as Hm.
-    constructor; intros c0; rewrite ?Hs, ?Ht; intros; rewrite nposts_app, acc_app, rel_app, Hn;
+    constructor; intros c0; rewrite ?Hs, ?Ht, ?Hw; intros; rewrite nposts_app, acc_app, rel_app, Hn;
     destruct (Ha c0) as (A1 & A2); rewrite A1, A2, ?orb_false_r.
     + destruct (Z.eqb_spec c c0) as [E|E]; [subst; congruence|]. rewrite Nat.add_0_r. apply Gf. assumption.
     + apply remove_z_in in H as [H1 H2]. rewrite (proj2 (Z.eqb_neq c c0)) by congruence. rewrite Nat.add_0_r. apply Gm. assumption.
+    + destruct (Z.eqb_spec c c0) as [E|E]; [subst; exfalso; eapply Wm; eassumption|]. rewrite Nat.add_0_r. apply Gw. assumption.
     + destruct (Z.eqb_spec c c0) as [E|E].
       * subst. left. rewrite G1, G2, G3. split; [reflexivity | left; split; reflexivity].
-      * rewrite Nat.add_0_r. apply Gd; [assumption|]. intros X. apply H0. apply remove_z_in. split; [assumption | congruence].
+      * rewrite Nat.add_0_r. apply Gd; [assumption| |assumption]. intros X. apply H0. apply remove_z_in. split; [assumption | congruence].
   - (* released *)
     destruct (Gm _ Hin) as (G1 & G2 & G3). pose proof (Ms _ Hin) as Hm.
-    constructor; intros c0; rewrite ?Hs, ?Ht; intros; rewrite nposts_app, acc_app, rel_app;
+    constructor; intros c0; rewrite ?Hs, ?Ht, ?Hw; intros; rewrite nposts_app, acc_app, rel_app;
     destruct (Hr c0) as (R1 & R2 & R3); rewrite R1, R2, R3, ?Nat.add_0_r, ?orb_false_r.
     + destruct (Z.eqb_spec c c0) as [E|E]; [subst; congruence|]. rewrite orb_false_r. apply Gf. assumption.
     + apply remove_z_in in H as [H1 H2]. rewrite (proj2 (Z.eqb_neq c c0)) by congruence. rewrite orb_false_r. apply Gm. assumption.
+    + destruct (Z.eqb_spec c c0) as [E|E]; [subst; exfalso; eapply Wm; eassumption|]. rewrite orb_false_r. apply Gw. assumption.
     + destruct (Z.eqb_spec c c0) as [E|E].
       * subst. left. rewrite G1, G2, orb_true_r. split; [reflexivity | right; split; reflexivity].
-      * rewrite orb_false_r. apply Gd; [assumption|]. intros X. apply H0. apply remove_z_in. split; [assumption | congruence].
+      * rewrite orb_false_r. apply Gd; [assumption| |assumption]. intros X. apply H0. apply remove_z_in. split; [assumption | congruence].
   - (* shutdown *)
-    constructor; intros c0; rewrite ?Hs, ?Ht; intros; rewrite nposts_app, acc_app, rel_app, Hn;
+    constructor; intros c0; rewrite ?Hs, ?Ht, ?Hw; intros; rewrite nposts_app, acc_app, rel_app, Hn;
     destruct (Ha c0) as (A1 & A2); rewrite A1, A2, ?orb_false_r.
     + destruct (mem_z c0 (tagmap s)) eqn:M.
       * apply mem_z_true in M. apply Ms in M. congruence.
       * rewrite Nat.add_0_r. apply Gf. assumption.
     + destruct H.
     + destruct (mem_z c0 (tagmap s)) eqn:M.
+      * apply mem_z_true in M. exfalso. eapply Wm; eassumption.
+      * rewrite Nat.add_0_r. apply Gw. assumption.
+    + destruct (mem_z c0 (tagmap s)) eqn:M.
       * apply mem_z_true in M. destruct (Gm _ M) as (G1 & G2 & G3). left. rewrite G1, G2, G3.
         split; [reflexivity | left; split; reflexivity].
-      * rewrite Nat.add_0_r. apply Gd; [assumption|]. apply mem_z_false. assumption.
+      * rewrite Nat.add_0_r. apply Gd; [assumption| |assumption]. apply mem_z_false. assumption.
   - (* accepted *)
     subst e. destruct (Gf _ Hc) as (F1 & F2 & F3).
     assert (Hn : ~ In c (tagmap s)) by (intros X; apply Ms in X; congruence).
-    constructor; intros c0; rewrite ?Hs, ?Ht, ?mem_cons; intros; rewrite nposts_app, acc_app, rel_app; cbn;
+    constructor; intros c0; rewrite ?Hs, ?Ht, ?Hw, ?mem_cons; intros; rewrite nposts_app, acc_app, rel_app; cbn;
     rewrite ?Nat.add_0_r, ?orb_false_r.
     + apply orb_false_iff in H as [H1 H2]. rewrite Z.eqb_sym, H1, orb_false_r. apply Gf. assumption.
     + apply in_app_or in H. destruct H as [H|[H|[]]].
       * destruct (Gm _ H) as (G1 & G2 & G3). rewrite G1, G2, G3. repeat split.
       * subst. rewrite Z.eqb_refl, orb_true_r. repeat split; assumption.
+    + pose proof (Ws _ H) as Hm. destruct (Z.eqb_spec c c0) as [E|E]; [subst; congruence|]. rewrite orb_false_r. apply Gw. assumption.
     + destruct (Z.eqb_spec c0 c) as [E|E].
       * subst. exfalso. apply H0. apply in_or_app. right. left. reflexivity.
       * cbn in H. rewrite (proj2 (Z.eqb_neq c c0)) by congruence. rewrite orb_false_r.
-        apply Gd; [assumption|]. intros X. apply H0. apply in_or_app. left. assumption.
+        apply Gd; [assumption| |assumption]. intros X. apply H0. apply in_or_app. left. assumption.
   - (* refused: Sink not open *)
     subst e. destruct (Gf _ Hc) as (F1 & F2 & F3).
     assert (Hn : ~ In c (tagmap s)) by (intros X; apply Ms in X; congruence).
-    constructor; intros c0; rewrite ?Hs, ?Ht, ?mem_cons; intros; rewrite nposts_app, acc_app, rel_app; cbn;
+    constructor; intros c0; rewrite ?Hs, ?Ht, ?Hw, ?mem_cons; intros; rewrite nposts_app, acc_app, rel_app; cbn;
     rewrite ?Nat.add_0_r, ?orb_false_r.
     + apply orb_false_iff in H as [H1 H2]. rewrite Z.eqb_sym, H1, Nat.add_0_r. apply Gf. assumption.
     + destruct (Z.eqb_spec c c0) as [E|E]; [subst; contradiction|]. rewrite Nat.add_0_r. apply Gm. assumption.
+    + pose proof (Ws _ H) as Hm. destruct (Z.eqb_spec c c0) as [E|E]; [subst; congruence|]. rewrite Nat.add_0_r. apply Gw. assumption.
     + destruct (Z.eqb_spec c0 c) as [E|E].
       * subst. rewrite Z.eqb_refl. right. rewrite F1, F2, F3. repeat split.
       * cbn in H. rewrite (proj2 (Z.eqb_neq c c0)) by congruence. rewrite Nat.add_0_r. apply Gd; assumption.
+  - (* blocked on the open result *)
+    subst e. destruct (Gf _ Hc) as (F1 & F2 & F3). rewrite app_nil_r.
+    constructor; intros c0; rewrite ?Hs, ?Ht, ?Hw, ?mem_cons; intros.
+    + apply orb_false_iff in H as [H1 H2]. apply Gf. assumption.
+    + apply Gm. assumption.
+    + apply in_app_or in H. destruct H as [H|[H|[]]]; [apply Gw; assumption | subst; repeat split; assumption].
+    + destruct (Z.eqb_spec c0 c) as [E|E].
+      * subst. exfalso. apply H1. apply in_or_app. right. left. reflexivity.
+      * cbn in H. apply Gd; [assumption | assumption |]. intros X. apply H1. apply in_or_app. left. assumption.
+  - (* resumed, accepted *)
+    subst e. destruct (Gw _ Hin) as (F1 & F2 & F3). pose proof (Ws _ Hin) as Hm. pose proof (Wm _ Hin) as Hn.
+    constructor; intros c0; rewrite ?Hs, ?Ht, ?Hw; intros; rewrite nposts_app, acc_app, rel_app; cbn;
+    rewrite ?Nat.add_0_r, ?orb_false_r.
+    + destruct (Z.eqb_spec c c0) as [E|E]; [subst; congruence|]. rewrite orb_false_r. apply Gf. assumption.
+    + apply in_app_or in H. destruct H as [H|[H|[]]].
+      * destruct (Gm _ H) as (G1 & G2 & G3). rewrite G1, G2, G3. repeat split.
+      * subst. rewrite Z.eqb_refl, orb_true_r. repeat split; assumption.
+    + apply remove_z_in in H as [H1 H2]. rewrite (proj2 (Z.eqb_neq c c0)) by congruence. rewrite orb_false_r. apply Gw. assumption.
+    + destruct (Z.eqb_spec c0 c) as [E|E].
+      * subst. exfalso. apply H0. apply in_or_app. right. left. reflexivity.
+      * rewrite (proj2 (Z.eqb_neq c c0)) by congruence. rewrite orb_false_r.
+        apply Gd; [assumption | |].
+        -- intros X. apply H0. apply in_or_app. left. assumption.
+        -- intros X. apply H1. apply remove_z_in. split; assumption.
+  - (* resumed, refused *)
+    subst e. destruct (Gw _ Hin) as (F1 & F2 & F3). pose proof (Ws _ Hin) as Hm. pose proof (Wm _ Hin) as Hn.
+    constructor; intros c0; rewrite ?Hs, ?Ht, ?Hw; intros; rewrite nposts_app, acc_app, rel_app; cbn;
+    rewrite ?Nat.add_0_r, ?orb_false_r.
+    + destruct (Z.eqb_spec c c0) as [E|E]; [subst; congruence|]. rewrite Nat.add_0_r. apply Gf. assumption.
+    + destruct (Z.eqb_spec c c0) as [E|E]; [subst; contradiction|]. rewrite Nat.add_0_r. apply Gm. assumption.
+    + apply remove_z_in in H as [H1 H2]. rewrite (proj2 (Z.eqb_neq c c0)) by congruence. rewrite Nat.add_0_r. apply Gw. assumption.
+    + destruct (Z.eqb_spec c0 c) as [E|E].
+      * subst. rewrite Z.eqb_refl. right. rewrite F1, F2, F3. repeat split.
+      * rewrite (proj2 (Z.eqb_neq c c0)) by congruence. rewrite Nat.add_0_r. apply Gd; [assumption | assumption |].
+        intros X. apply H1. apply remove_z_in. split; assumption.
 Qed.
 
 Lemma run_G ls : forall s s' e evs, Inv s -> G s evs -> run s ls = Some (s', e) -> G s' (evs ++ e) /\ Inv s'.
@@ -259,22 +341,48 @@ Lemma mux_once t0 ls s e c :
   run (init t0) ls = Some (s, e) ->
   (nposts c e <= 1)%nat /\
   (In c (tagmap s) -> nposts c e = O /\ acc c e = true) /\
+  (In c (waiting s) -> nposts c e = O /\ acc c e = false) /\
   (acc c e = true -> ~ In c (tagmap s) -> rel c e = false -> nposts c e = 1%nat) /\
+  (mem_z c (seen s) = true -> ~ In c (waiting s) -> acc c e = false -> nposts c e = 1%nat) /\
   (cst s = Closed -> tagmap s = []).
 Proof.
-  intros H. destruct (run_G ls (init t0) s e [] (inv_init t0) (G_init t0) H) as [[Gf Gm Gd] I]. cbn in *.
-  split; [|split; [|split]].
+  intros H. destruct (run_G ls (init t0) s e [] (inv_init t0) (G_init t0) H) as [[Gf Gm Gw Gd] I]. cbn in *.
+  split; [|split; [|split; [|split; [|split]]]].
   - destruct (mem_z c (seen s)) eqn:M.
     + destruct (in_dec Z.eq_dec c (tagmap s)) as [X|X].
       * destruct (Gm _ X) as (Y & _). lia.
-      * destruct (Gd c M X) as [(_ & [D|D])|D]; lia.
+      * destruct (in_dec Z.eq_dec c (waiting s)) as [W|W].
+        -- destruct (Gw _ W) as (Y & _). lia.
+        -- destruct (Gd c M X W) as [(_ & [D|D])|D]; lia.
     + destruct (Gf c M) as (X & _). lia.
   - intros X. destruct (Gm _ X) as (Y1 & Y2 & _). split; assumption.
+  - intros X. destruct (Gw _ X) as (Y1 & Y2 & _). split; assumption.
   - intros A N R. destruct (mem_z c (seen s)) eqn:M.
-    + destruct (Gd c M N) as [(_ & [D|D])|D]; [tauto | | ]; destruct D; congruence.
+    + destruct (in_dec Z.eq_dec c (waiting s)) as [W|W]; [destruct (Gw _ W) as (_ & Y & _); congruence|].
+      destruct (Gd c M N W) as [(_ & [D|D])|D]; [tauto | | ]; destruct D; congruence.
     + destruct (Gf c M) as (_ & X & _). congruence.
+  - intros M W A. assert (N : ~ In c (tagmap s)) by (intros X; destruct (Gm _ X) as (_ & Y & _); congruence).
+    destruct (Gd c M N W) as [(Y & _)|(_ & Y & _)]; [congruence | assumption].
   - intros C. apply (m_closed _ I C).
 Qed.
+
+(* a caller blocked on the open result can resume as soon as the transport is no longer Idle; what it gets is decided
+   then: "Sink not open" on a closed transport (exactly one message), a tag on an open one *)
+Lemma blocked_resumes s c :
+  Inv s -> In c (waiting s) -> cst s <> Idle ->
+  exists s' e, step s (MResumeReq c) = Some (s', e) /\ ~ In c (waiting s') /\
+    (cst s = Closed -> e = [Post c KNotOpen] /\ tagmap s' = tagmap s) /\
+    (cst s = Open -> e = [Accepted c] /\ In c (tagmap s')).
+Proof.
+  intros I W C. apply mem_z_true in W. cbn. rewrite W.
+  assert (R : ~ In c (remove_z c (waiting s))) by (intros X; apply remove_z_in in X; tauto).
+  destruct (cst s) eqn:E; [congruence | |]; eexists; eexists; (split; [reflexivity|]); cbn; (split; [exact R|]);
+  split; intros X; try discriminate; split; try reflexivity. apply in_or_app. right. left. reflexivity.
+Qed.
+
+(* while the transport is Idle with callers waiting, an Open() is in progress: they are not forgotten *)
+Lemma waiting_idle_opening s : Inv s -> cst s = Idle -> waiting s <> [] -> opn s <> None.
+Proof. intros I C W O. apply W. apply (m_wait_idle _ I C O). Qed.
 
 (* ---- pings ---- *)
 Definition ER (s : st) (evs : list ev) : Prop := forall d, ping_dl s = Some d -> In (PingSent (lastping s)) evs.
@@ -282,7 +390,7 @@ Definition ER (s : st) (evs : list ev) : Prop := forall d, ping_dl s = Some d ->
 Lemma step_ER s l s' e evs : Inv s -> ER s evs -> step s l = Some (s', e) -> ER s' (evs ++ e).
 Proof.
   intros I E H. pose proof (m_dl _ I) as I9. pose proof (m_pre _ I) as I8. clear I. unfold ER in *.
-  destruct s as [nw ch op tm sn ex q sd rc pd pa dl pls lw lpg]; cbn in *.
+  destruct s as [nw ch op tm sn ex q sd rc pd pa dl pls lw lpg wt]; cbn in *.
   destruct l; cbn in H; unfold shutdown, send_ping, ar_fail, wake_fail, tick_ok in H; cbn in H; brk; cbn; intros d0 Hd;
   apply in_or_app;
   try (left; apply (E d0); assumption);
@@ -339,7 +447,7 @@ Lemma ping_dl_persists s l s' e d :
   Inv s -> step s l = Some (s', e) -> ping_dl s = Some d -> ping_dl s' = Some d \/ In Pong e \/ cst s' = Closed.
 Proof.
   intros I H D. pose proof (m_pre _ I) as I8. pose proof (m_dl _ I) as I9. clear I.
-  destruct s as [nw ch op tm sn ex q sd rc pd pa dl pls lw lpg]; cbn in *. subst dl.
+  destruct s as [nw ch op tm sn ex q sd rc pd pa dl pls lw lpg wt]; cbn in *. subst dl.
   destruct l; cbn in H; unfold shutdown, send_ping, ar_fail, wake_fail, tick_ok in H; cbn in H; brk; cbn;
   try (left; reflexivity); try (right; left; left; reflexivity); try (right; right; reflexivity);
   try (destruct I8 as (X & _); [tauto | discriminate]).
@@ -352,7 +460,7 @@ Lemma ping_wake_step s d s' e :
   exists p, pl s' = PSleep p /\ now s + 30 * tps <= p <= now s + 40 * tps.
 Proof.
   intros I H. pose proof (m_sleep _ I) as I11. clear I.
-  destruct s as [nw ch op tm sn ex q sd rc pd pa dl pls lw lpg]; cbn -[Z.mul Z.add] in *.
+  destruct s as [nw ch op tm sn ex q sd rc pd pa dl pls lw lpg wt]; cbn -[Z.mul Z.add] in *.
   destruct pls as [| |p]; try discriminate. destruct dl; try discriminate.
   destruct ((p =? nw) && (30 <=? d) && (d <=? 40)) eqn:B; [|discriminate].
   unfold send_ping in H. cbn -[Z.mul Z.add] in H. inversion H; subst; clear H. cbn -[Z.mul Z.add].
@@ -385,7 +493,7 @@ Proof. constructor; cbn; intros; try discriminate. destruct H0 as [X|(b & X)]; d
 Lemma step_alive s l s' e : Alive s -> step s l = Some (s', e) -> Alive s'.
 Proof.
   intros [A1 A2] H.
-  destruct s as [nw ch op tm sn ex q sd rc pd pa dl pls lw lpg]; cbn in *.
+  destruct s as [nw ch op tm sn ex q sd rc pd pa dl pls lw lpg wt]; cbn in *.
   destruct l; cbn in H; unfold shutdown, send_ping, ar_fail, wake_fail, tick_ok in H; cbn in H; brk;
   constructor; cbn; intros; cbn in *;
   repeat match goal with
@@ -418,7 +526,7 @@ Proof.
   intros I A C. destruct (a_open _ A C) as (A1 & A2). split; [assumption|]. split; [assumption|].
   intros Sd Q c M. pose proof (m_exp_seen _ I c) as Ex.
   assert (Ex' : mem_z c (expired s) = false) by (destruct (mem_z c (expired s)); [rewrite Ex in M by reflexivity; discriminate | reflexivity]).
-  destruct s as [nw ch op tm sn ex q sd rc pd pa dl pls lw lpg]; cbn in *. subst ch sd q.
+  destruct s as [nw ch op tm sn ex q sd rc pd pa dl pls lw lpg wt]; cbn in *. subst ch sd q.
   eexists. eexists. eexists.
   split; [cbn; rewrite M; reflexivity|].
   split; [cbn; rewrite Ex'; reflexivity|].
@@ -429,7 +537,7 @@ Qed.
 Lemma step_faults s l s' e :
   step s l = Some (s', e) -> nfaults e = 0 \/ (nfaults e = 1 /\ cst s <> Closed /\ cst s' = Closed).
 Proof.
-  intros H. destruct s as [nw ch op tm sn ex q sd rc pd pa dl pls lw lpg].
+  intros H. destruct s as [nw ch op tm sn ex q sd rc pd pa dl pls lw lpg wt].
   destruct l; cbn in H; unfold shutdown, send_ping, ar_fail, wake_fail, tick_ok in H; cbn in H; brk; cbn;
   try (left; reflexivity);
   try (fold (errs tm); rewrite ?nfaults_app, nfaults_errs; cbn; first [left; reflexivity | right; repeat split; discriminate]).
@@ -437,7 +545,7 @@ Qed.
 
 Lemma step_stays_closed s l s' e : step s l = Some (s', e) -> cst s = Closed -> cst s' = Closed.
 Proof.
-  intros H C. destruct s as [nw ch op tm sn ex q sd rc pd pa dl pls lw lpg]. cbn in C. subst ch.
+  intros H C. destruct s as [nw ch op tm sn ex q sd rc pd pa dl pls lw lpg wt]. cbn in C. subst ch.
   destruct l; cbn in H; unfold shutdown, send_ping, ar_fail, wake_fail, tick_ok in H; cbn in H; brk;
   try reflexivity; try discriminate.
 Qed.
